@@ -27,7 +27,7 @@ def field_of_path(key):
 
 def classify_atom(key, env):
     """describe the source of a bit run in an encoder write"""
-    e = env.atoms.get(key)
+    e = getattr(env, "defs", {}).get(key) or env.atoms.get(key)
     key = key.replace("r#", "")
     name, is_elem, is_opt = field_of_path(key)
     if name and not is_elem and not is_opt:
@@ -178,7 +178,7 @@ def write_item(e):
             yield x
     enum_fields = set()
     for a in atoms_of(e.e):
-        e.env.atoms[a.key()] = a
+        e.env.atoms.setdefault(a.key(), a)
         cls = classify_atom(a.key(), e.env)
         his[cls[:2]] = e.env.interval(a)[1]
         if a.key().startswith("int(") and len(cls) > 1:
